@@ -183,7 +183,14 @@ def still_fails(case, kind, oracle=None):
     for x in f:
         if x['kind'] != kind:
             continue
-        if oracle is None or any(o[1].split()[0] == oracle for o in (x.get('oracle') or [])):
+        if kind == 'correspondence':
+            d = x.get('first_difference') or {}
+            if oracle is not None and d.get('op') != oracle:
+                continue
+            if str(d.get('impl', '')).startswith('err') or str(d.get('model', '')).startswith('err'):
+                continue
+            return True
+        if oracle is None or any(o[1].split()[0] == oracle[0] and o[2].split()[:3] == oracle[1] for o in (x.get('oracle') or [])):
             return True
     return False
 
